@@ -301,6 +301,22 @@ func (rn *runner) runServer(d *dataset, qs []*querySpec, cells [][]cell, groups 
 	}
 	l := kit.ReadLayout(s, db)
 	c.Distinct("layout-observed", layout+": "+l.String())
+	reached := false
+	switch layout {
+	case "mem":
+		reached = l.ActiveMem && l.Ordered == 0 && l.Unordered == 0
+	case "flushed":
+		reached = !l.ActiveMem && l.Ordered > 0 && l.Unordered == 0
+	case "mixed":
+		reached = l.ActiveMem && l.Ordered > 0 && l.Unordered > 0
+	case "compacted":
+		reached = !l.ActiveMem && l.Ordered > 0 && l.Unordered == 0
+	}
+	if !reached {
+		// the answers are still judged (same logical contents), but the layout cell is not what it claims
+		c.Inconclusive("category-not-reached:layout-"+layout, 1)
+		fmt.Printf("INCONCLUSIVE C08 dataset %d %s/pt%d: layout observed %s\n", d.Index, layout, pt, l.String())
+	}
 	return rn.runJobs(s, db, d, qs, cells, groups, layout, pt, out)
 }
 
